@@ -781,6 +781,65 @@ pub fn run_c11(tier: Tier) -> i32 {
             fams.push(json!({"family": format!("MAT:{} every {}th index (game-stage clause coverage)", sig, stride), "legal_members": n, "secs": t0.elapsed().as_secs_f64()}));
         }
     }
+    {
+        // the material LATTICE: every vector of piece counts (queens 0..3, rooks 0..2, bishops 0..2,
+        // knights 0..2, pawns 0..2 per side: 324^2 = 104 976 vectors — "all material configurations
+        // and game stages"), each in several deterministic placements with the kings on unrelated
+        // squares. The evaluation may depend on counts in ways no single-signature family shows.
+        let t0 = Instant::now();
+        let placements: u64 = if tier == Tier::Quick { 6 } else { 48 };
+        let lattice_n = AtomicU64::new(0);
+        let per_side: u64 = 4 * 3 * 3 * 3 * 3;
+        par_for(per_side * per_side * placements, 256, |idx| {
+            let mut i = idx;
+            let variant = i % placements;
+            i /= placements;
+            let mut counts = [[0u64; 5]; 2]; // q r b n p
+            for side in 0..2 {
+                for (j, n) in [4u64, 3, 3, 3, 3].iter().enumerate() {
+                    counts[side][j] = i % n;
+                    i /= n;
+                }
+            }
+            // squares in a fixed pseudo-random order that depends on the variant and the vector
+            let a = (variant * 7 + idx / placements * 13) % 64;
+            let step = [37u64, 27, 45, 19, 51, 29][(variant % 6) as usize]; // all co-prime to 64
+            let mut order: Vec<u8> = (0..64u64).map(|k| ((a + k * step) % 64) as u8).collect();
+            let mut p = Pos::empty();
+            let mut next = |p: &mut Pos, piece: u8, pawn: bool| -> bool {
+                let pos = order.iter().position(|&sq| p.board[sq as usize] == EMPTY && (!pawn || (row_of(sq) != 0 && row_of(sq) != 7)));
+                match pos {
+                    Some(k) => {
+                        let sq = order.remove(k);
+                        p.board[sq as usize] = piece;
+                        true
+                    }
+                    None => false,
+                }
+            };
+            let kinds = [QUEEN, ROOK, BISHOP, KNIGHT, PAWN];
+            if !next(&mut p, pc(WHITE, KING), false) || !next(&mut p, pc(BLACK, KING), false) {
+                return;
+            }
+            for side in 0..2u8 {
+                for j in 0..5 {
+                    for _ in 0..counts[side as usize][j] {
+                        if !next(&mut p, pc(side, kinds[j]), kinds[j] == PAWN) {
+                            return;
+                        }
+                    }
+                }
+            }
+            for stm in [WHITE, BLACK] {
+                p.stm = stm;
+                if p.is_legal_position() {
+                    lattice_n.fetch_add(1, Ordering::Relaxed);
+                    visit_static(&p);
+                }
+            }
+        });
+        fams.push(json!({"family": "material lattice: every count vector (Q 0..3, R B N P 0..2 per side) x deterministic placements x side to move", "count_vectors": per_side * per_side, "placements_per_vector": placements, "legal_members": lattice_n.load(Ordering::Relaxed), "secs": t0.elapsed().as_secs_f64()}));
+    }
     let castle = CastleFam { blockers: 6 };
     let ep = EpFam::quick();
     let promo = PromoFam::quick();
